@@ -1,4 +1,6 @@
 // Unit `worker`: actix-server/src/worker.rs — ServerWorker::poll and its helpers (C01 worker side, C06, C07).
+//@assumes unit=server_service fns=worker::wrap_worker_services,service::create,service::create_block,service::StreamNewService::create
+//@assumes unit=worker_start fns=worker::start,worker::start_block_create,worker::start_block_sys
 use vstd::prelude::*;
 use core::task::Poll;
 use std::mem;
